@@ -193,8 +193,14 @@ class Gen:
                 a = self.adjointable(q)[int(rng.integers(len(self.adjointable(q))))]
                 op = "-" if anti else "+"
                 body = f'("{a}" {op} "{a}".adj) / 2'
-                pos = int(rng.integers(3))
-                if pos == 0:
+                pos = int(rng.integers(4))
+                if pos == 3:
+                    # the marker only defines the lower blocks: the diagonal blocks may be anything (not (anti)Hermitian)
+                    stmts.append(("marker", s["marker"]))
+                    stmts.append(("diagonal", self.expr(q, 1)))
+                    stmts.append(("offdiagonal", body))
+                    self.features["marker_generic_diagonal"] += 1
+                elif pos == 0:
                     stmts.append(("marker", s["marker"]))
                     stmts.append((None, body))
                 elif pos == 1:
@@ -586,7 +592,7 @@ def finalize(c, tier, evaluations, distinct):
                 shipped_main=20, shipped_nonhermitian=20, flag_differential_elements=1000, construct_marker=50, construct_conditional=50,
                 construct_function_of_series=30, construct_function_of_expr=50, construct_nested_function=10, construct_product_2=100,
                 construct_product_3=30, construct_recursive_product=50, construct_hermitian_product=30, construct_hermitian_product_3=10, construct_guard_diagonal=100, construct_guard_offdiagonal=100,
-                construct_guard_sandwich=20, construct_guard_lower=20, custom_diag_offdiag=50)
+                construct_guard_sandwich=20, construct_guard_lower=20, construct_marker_generic_diagonal=20, custom_diag_offdiag=50)
     for k, v in need.items():
         if c.get(k, 0) < v:
             reasons.append(f"{k} observed only {c.get(k, 0)} (< {v})")
